@@ -64,14 +64,14 @@ def mk(conc, prem):
     return ':'.join([conc] + list(prem))
 
 def select(name, tier):
-    """stratified slice of the plan: every k-th argument within each (fragment, number of premises, uses a binary predicate) stratum,
+    """stratified slice of the plan: every k-th argument within each (fragment, number of premises, uses a binary predicate, set of constants) stratum,
     so that every shape family is represented whatever the size of the others"""
     k = (24 if name in sweep.SLOW else 8) if tier == 'quick' else 2
     seen = {}
     out = []
     for frag, a in plan(name, tier):
         binary = 'H' in a
-        key = (frag, a.count(':'), binary)
+        key = (frag, a.count(':'), binary, ''.join(sorted({ch for ch in a if ch in CONSTS})))
         i = seen[key] = seen.get(key, -1) + 1
         every = max(1, k // 3) if binary else k
         if i % every == 0:
@@ -126,7 +126,8 @@ def _task(task):
                         break
         # renaming
         if base in ('valid', 'invalid_clean'):
-            for label, mp in (ren if tier != 'quick' else ren[idx % 2:: 2]):
+            # quick tier: every renaming for arguments with constants (fresh-constant bookkeeping is where names matter), every other one otherwise
+            for label, mp in (ren if tier != 'quick' or any(ch in CONSTS for ch in astr) else ren[idx % 2:: 2]):
                 # injective on the whole argument: a target symbol must not already occur (unless it is renamed away itself)
                 if any(t[0] in astr and t[0] not in mp for t in mp.values()):
                     continue
